@@ -24,9 +24,11 @@ const (
 	opUnread2
 	opUnread3
 	opReset
+	opUnread7
+	opUnreadAll
 )
 
-var c11OpNames = []string{"Read", "Unread", "UnreadMany(2)", "UnreadMany(3)", "Reset"}
+var c11OpNames = []string{"Read", "Unread", "UnreadMany(2)", "UnreadMany(3)", "Reset", "UnreadMany(7)", "UnreadMany(len+3)"}
 
 // forwardLC is the independent rule model: coordinates after reading
 // characters 0..p (p may be len: the end-of-input slot adds nothing).
@@ -75,8 +77,20 @@ func c11Apply(s *rio.StringScanner, op c11Op) rune {
 		s.UnreadMany(3)
 	case opReset:
 		s.Reset()
+	case opUnread7:
+		s.UnreadMany(7)
+	case opUnreadAll:
+		s.UnreadMany(c11Len(s) + 3)
 	}
 	return -2
+}
+
+func c11Len(s *rio.StringScanner) int {
+	f := reflect.ValueOf(s).Elem().FieldByName("content")
+	if !f.IsValid() {
+		return 64
+	}
+	return f.Len()
 }
 
 func c11Model(content []rune, p int, op c11Op) (int, rune) {
@@ -94,10 +108,15 @@ func c11Model(content []rune, p int, op c11Op) (int, rune) {
 		if p > -1 {
 			p--
 		}
-	case opUnread2, opUnread3:
+	case opUnread2, opUnread3, opUnread7, opUnreadAll:
 		k := 2
-		if op == opUnread3 {
+		switch op {
+		case opUnread3:
 			k = 3
+		case opUnread7:
+			k = 7
+		case opUnreadAll:
+			k = n + 3
 		}
 		for ; k > 0; k-- {
 			if p > -1 {
@@ -204,7 +223,7 @@ func c11Run(c *fw.Ctx, content string, depthCap int) {
 			capped = true
 			continue
 		}
-		for op := opRead; op <= opReset; op++ {
+		for op := opRead; op <= opUnreadAll; op++ {
 			s := build(nd.hist)
 			ret := c11Apply(s, op)
 			np, wantRet := c11Model(runes, nd.p, op)
@@ -251,9 +270,9 @@ func init() {
 	fw.Register(&fw.Check{
 		ID:    "C11",
 		Level: "model_checking",
-		Rule: "explicit-state BFS of the real StringScanner: one graph per content over {x,LF,CR}; operations {Read,Unread,UnreadMany(2),UnreadMany(3),Reset}; " +
+		Rule: "explicit-state BFS of the real StringScanner: one graph per content over {x,LF,CR}; operations {Read,Unread,UnreadMany(2),UnreadMany(3),UnreadMany(7),UnreadMany(len+3),Reset}; " +
 			"state key = (position,line,column) read from the object; successors built by replaying the shortest history on a fresh scanner; " +
-			"every state is compared with the cursor model, the independent line/column rule and a fresh forward scan; non-trivial = content with a line break and length>=2",
+			"plus patterns of <=3 characters repeated to lengths up to 66; every state is compared with the cursor model, the independent line/column rule and a fresh forward scan; non-trivial = content with a line break and length>=2",
 		Assume: []string{"the scanner's whole state is (content, position, line, column)", "peek law asserted only where a next character exists (end-of-input slot pinned by C12)"},
 		Spaces: func(tier string) []fw.Space {
 			maxLen, depth := 4, 8
@@ -268,6 +287,18 @@ func init() {
 					c11Run(c, c11Content(i, maxLen), depth)
 				},
 				Repr:    func(i int64) string { return fmt.Sprintf("content=%q", c11Content(i, maxLen)) },
+			}, {
+				Name: "pumped-contents",
+				N:    (countStrings(3, 3) - 1) * 5,
+				Run: func(c *fw.Ctx, i int64) {
+					n := []int{3, 5, 9, 17, 22}[i%5]
+					content := pumped(stringByIndex(c11Alphabet, 1+i/5), n)
+					c11Run(c, content, len([]rune(content))+6)
+				},
+				Repr: func(i int64) string {
+					return fmt.Sprintf("content=%q x %d", stringByIndex(c11Alphabet, 1+i/5), []int{3, 5, 9, 17, 22}[i%5])
+				},
+				Timeout: 300e9,
 			}}
 		},
 		Bounds: func(tier string) string {
